@@ -139,3 +139,7 @@ Definition all_outs_fast (m : mode) (stdin : fdata) (args : list (fsrc fdata)) :
   | [] => data_outs_fast (fmt_of m) stdin
   | _ => flat_map (fun s => match s with FMissing => [OErr] | FData d => data_outs_fast (fmt_of m) d end) args
   end.
+
+(* a list of outputs is itself an iterator: the declarative oracle runs the consumers over all_outs *)
+Definition list_next (l : list out) : option out * list out :=
+  match l with [] => (None, []) | o :: r => (Some o, r) end.
